@@ -1,13 +1,14 @@
 (* Results with a Python-exception enum; JSON values after json.loads; and the
    duck-typed accessor layer that the Node constructors apply to a state. *)
-From Skv Require Export PyStr.
+From Skv Require Export PyStr Corr.
 
 Inductive err :=
 | EUntrusted (names : list pstr)   (* UntrustedTypesFoundException, sorted names *)
 | ENoLoader (loader : pstr)        (* TypeError "Can't find loader" *)
 | ETrustedTrue                     (* TypeError: trusted=True *)
 | EKey | EType | EValue | EAttr | EImport | ERecursion | EUnsupported | EOther
-| EFuel.                           (* model artefact: excluded by every theorem *)
+| EFuel                            (* model artefact: excluded by every theorem *)
+| EDomain.                         (* input outside the modelled domain (e.g. repr of a container in a name slot) *)
 
 Inductive res (A : Type) := Ok (a : A) | Raise (e : err).
 Arguments Ok {A} a.
@@ -115,3 +116,22 @@ Fixpoint jdepth (j : json) : nat :=
   | JObj kv => S (fold_right (fun p acc => Nat.max (jdepth (snd p)) acc) O kv)
   | _ => O
   end.
+
+(* f"{x}" for the JSON values whose formatting is modelled *)
+Definition jfmt (j : json) : option pstr :=
+  match j with
+  | JNull => Some (s "None")
+  | JBool true => Some (s "True")
+  | JBool false => Some (s "False")
+  | JStr t => Some t
+  | JInt z => Some (show_Z z)
+  | JFloat t =>        (* half-integers: repr is d.0 or d.5 *)
+      let a := Z.abs t in
+      Some ((if (t <? 0)%Z then [45%N] else []) ++ show_Z (a / 2)
+            ++ (if (a mod 2 =? 0)%Z then s ".0" else s ".5"))
+  | _ => None          (* repr of a container in a name slot: outside the modelled domain *)
+  end.
+
+
+Definition show_json_short (j : json) : pstr :=
+  match jfmt j with Some t => t | None => s "?" end.
